@@ -57,6 +57,26 @@ pub fn script_prefix(st: &State, noglob: bool) -> String {
     s
 }
 
+fn has_subst(word: &[Unit]) -> bool {
+    fn p(p: &Param) -> bool {
+        match &p.form {
+            Form::Switch { word, .. } => has_subst(word),
+            Form::Trim { pattern, .. } => has_subst(pattern),
+            _ => false,
+        }
+    }
+    word.iter().any(|u| match u {
+        Unit::Cmd(_) | Unit::Arith(_) => true,
+        Unit::DQ(ds) => ds.iter().any(|d| match d {
+            DUnit::Cmd(_) | DUnit::Arith(_) => true,
+            DUnit::Param(q) => p(q),
+            _ => false,
+        }),
+        Unit::Param(q) => p(q),
+        _ => false,
+    })
+}
+
 fn word_is_plain_text(word: &[Unit]) -> bool {
     word.iter().all(|u| matches!(u, Unit::Lit(_)))
 }
@@ -107,6 +127,7 @@ fn check_word(c: &WordCase) -> Outcome {
             }
             let trivial_result = alts[0].len() == 1 && alts[0][0] == text;
             Outcome::pass(nontrivial && !trivial_result)
+                .class_if(has_subst(&c.word), "with-command-substitution-or-arithmetic")
                 .class(match got.len() { 0 => "fields:0", 1 => "fields:1", 2 => "fields:2", _ => "fields:3+" })
                 .class_if(alts.len() > 1, "two-acceptable-results")
         }
@@ -260,6 +281,12 @@ fn unit_alphabet() -> Vec<Unit> {
     // parameter with neighbours inside the same quotes
     v.push(Unit::DQ(vec![DUnit::Lit('x'), DUnit::Param(Param { name: Name::At, form: Form::Plain(false) }), DUnit::Lit('y')]));
     v.push(Unit::DQ(vec![DUnit::Param(Param { name: Name::At, form: Form::Plain(false) }), DUnit::Param(Param { name: var("c"), form: Form::Plain(false) })]));
+    // results of command substitutions and arithmetic expansions are split like parameter values
+    v.push(Unit::Cmd(Cmd { text: " a: b\n\n".into(), backquote: false }));
+    v.push(Unit::Cmd(Cmd { text: ":".into(), backquote: true }));
+    v.push(Unit::DQ(vec![DUnit::Cmd(Cmd { text: " a: b\n".into(), backquote: true })]));
+    v.push(Unit::Arith(-11));
+    v.push(Unit::DQ(vec![DUnit::Arith(-11)]));
     v
 }
 
@@ -280,6 +307,23 @@ fn states() -> Vec<State> {
 
 const IFS_VALUES: [Option<&str>; 6] = [None, Some(""), Some(" "), Some(":"), Some(": "), Some("a-\n")];
 
+/// Text printed by the command of a command substitution (no single quote).
+fn arb_cmd() -> impl Strategy<Value = Cmd> {
+    (prop::collection::vec(prop::sample::select(vec!['a', 'b', ' ', '\t', '\n', ':', '*', '-', '1', '\\']), 0..5), 0usize..3, any::<bool>()).prop_map(
+        |(t, nl, backquote)| {
+            let mut text: String = t.into_iter().filter(|c| !(backquote && *c == '\\')).collect();
+            for _ in 0..nl {
+                text.push('\n');
+            }
+            Cmd { text, backquote }
+        },
+    )
+}
+
+fn arb_arith() -> impl Strategy<Value = i32> {
+    prop::sample::select(vec![0, 1, 7, 10, 11, 101, 110, -1, -11, -101])
+}
+
 const VAL_ALPHA: [char; 9] = ['a', 'b', ' ', '\t', '\n', ':', '*', '\\', '-'];
 
 fn arb_value() -> impl Strategy<Value = String> {
@@ -291,6 +335,9 @@ fn arb_ifs() -> impl Strategy<Value = Option<String>> {
         2 => Just(None),
         1 => Just(Some(String::new())),
         6 => prop::collection::vec(prop::sample::select(vec![' ', '\t', '\n', ':', '-', 'a']), 1..4)
+            .prop_map(|v| Some(v.into_iter().collect())),
+        // a digit as separator: the results of ${#x}, $# and $((...)) are split as well
+        1 => prop::collection::vec(prop::sample::select(vec![' ', '1', '0', '-', ':']), 1..4)
             .prop_map(|v| Some(v.into_iter().collect())),
     ]
 }
@@ -339,7 +386,8 @@ fn arb_inner_units(dq: bool) -> impl Strategy<Value = Vec<Unit>> {
             prop::sample::select(vec!["", " ", "a:"]).prop_map(|s| Unit::DQ(s.chars().map(DUnit::Lit).collect())),
             prop::sample::select(vec!["a", "b", "c"]).prop_map(|n| Unit::DQ(vec![DUnit::Param(Param { name: var(n), form: Form::Plain(false) })])),
         ];
-        prop::collection::vec(prop_oneof![4 => lit, 2 => quoted, 1 => simple_param], 0..4).boxed()
+        let subst = prop_oneof![arb_cmd().prop_map(Unit::Cmd), arb_arith().prop_map(Unit::Arith)];
+        prop::collection::vec(prop_oneof![8 => lit, 4 => quoted, 2 => simple_param, 1 => subst], 0..4).boxed()
     }
 }
 
@@ -368,6 +416,8 @@ fn arb_unit() -> impl Strategy<Value = Unit> {
         3 => prop::sample::select(vec!['a', ' ', ':', '*', '\t', '-']).prop_map(DUnit::Lit),
         1 => prop::sample::select(vec!['$', '"', '\\', 'a', ' ']).prop_map(DUnit::Esc),
         4 => arb_param(true).prop_map(DUnit::Param),
+        1 => arb_cmd().prop_map(DUnit::Cmd),
+        1 => arb_arith().prop_map(DUnit::Arith),
     ];
     prop_oneof![
         3 => prop::sample::select(vec!['a', 'b', ':', '*', '-']).prop_map(Unit::Lit),
@@ -375,6 +425,8 @@ fn arb_unit() -> impl Strategy<Value = Unit> {
         1 => prop::sample::select(vec!["", " ", "a b", "\t", "*", "\\", "$a", "\"", ":"]).prop_map(|s| Unit::SQ(s.to_string())),
         3 => prop::collection::vec(dunit, 0..4).prop_map(Unit::DQ),
         6 => arb_param(false).prop_map(Unit::Param),
+        1 => arb_cmd().prop_map(Unit::Cmd),
+        1 => arb_arith().prop_map(Unit::Arith),
     ]
 }
 
